@@ -47,6 +47,22 @@ func flatten(v ssa.Value, pol bool, out *[]string) {
 				s = "!" + s
 			}
 			*out = append(*out, s)
+			// `H(...) == nil` for a transparent helper H: whatever holds at every nil return of H holds too
+			if pos && len(newHelpers) > 0 && inlineDepth == 0 {
+				var other ssa.Value
+				if c, ok := x.Y.(*ssa.Const); ok && c.Value == nil {
+					other = x.X
+				} else if c, ok := x.X.(*ssa.Const); ok && c.Value == nil {
+					other = x.Y
+				}
+				if other != nil {
+					if call, idx := helperCallOf(other); call != nil {
+						inlineDepth++
+						*out = append(*out, nilResultFacts(call, idx)...)
+						inlineDepth--
+					}
+				}
+			}
 			return
 		case token.LSS, token.GTR, token.LEQ, token.GEQ:
 			op := x.Op
@@ -468,6 +484,44 @@ func EveryPathFromHas(start, target *ssa.BasicBlock, pats ...string) (ok bool, t
 				for _, alt := range strings.Split(p, " || ") {
 					if MatchAtom(alt, a) {
 						return true
+					}
+				}
+			}
+		}
+		// `H(...) == nil` for a transparent helper: the edge counts when every path through H to
+		// a nil return establishes one of the patterns (the helper walked as if inlined)
+		if len(newHelpers) > 0 {
+			cond, p2 := ifi.Cond, pol
+			for {
+				if u, ok := cond.(*ssa.UnOp); ok && u.Op == token.NOT {
+					cond, p2 = u.X, !p2
+					continue
+				}
+				break
+			}
+			if bo, ok := cond.(*ssa.BinOp); ok && (bo.Op == token.EQL || bo.Op == token.NEQ) {
+				var other ssa.Value
+				if c, ok := bo.Y.(*ssa.Const); ok && c.Value == nil {
+					other = bo.X
+				} else if c, ok := bo.X.(*ssa.Const); ok && c.Value == nil {
+					other = bo.Y
+				}
+				isNilEdge := (bo.Op == token.EQL) == p2
+				if other != nil && isNilEdge {
+					if call, idx := helperCallOf(other); call != nil {
+						h := call.Call.StaticCallee()
+						rets := nilReturnsOf(h, idx)
+						all := len(rets) > 0
+						withCallArgs(call, func() {
+							for _, rt := range rets {
+								if okp, _ := EveryPathFromHas(h.Blocks[0], rt.Block(), pats...); !okp {
+									all = false
+								}
+							}
+						})
+						if all {
+							return true
+						}
 					}
 				}
 			}
